@@ -8,9 +8,10 @@ W=/tmp/vseed-$$
 git -C /repo worktree add --detach "$W" HEAD >/dev/null 2>&1 || { echo "cannot create worktree"; exit 2; }
 cleanup() { git -C /repo worktree remove --force "$W" >/dev/null 2>&1; rm -rf "$W" /tmp/clover-test* /tmp/export-dir* 2>/dev/null; }
 trap cleanup EXIT
-place=$(head -1 "$SEED/seed_demo_test.go" | sed -n 's,^// place in: *,,p' | tr -d ' \r')
+place=$(head -1 "$SEED/seed_demo_test.go" | sed -n 's,^// place in: *,,p' | awk '{print $1}' | tr -d '\r')
 [ -z "$place" ] && place=.
-[ "$place" = "<root>" ] && place=.
+case "$place" in "<root>"|"(root)"|root|/) place=.;; esac
+[ -d "/repo/$place" ] || place=.
 demo_name=$(grep -o 'func Test[A-Za-z0-9_]*' "$SEED/seed_demo_test.go" | head -1 | sed 's/func //')
 echo "place=$place demo=$demo_name"
 ( cd "$W" && git apply "$SEED/patch.diff" ) || { echo "RESULT patch does not apply"; exit 1; }
